@@ -152,6 +152,14 @@ def check(ctx):
                             g_.refs.append(((nsgen.UA, "i", "85"), k_, (nsgen.UA, "i", "35")))
                     g, ds = writeprops.make_graph(frng, True, hostile=False, clash=False, extra=zeros)
                     if any(a[0] != b[0] and a[0] in g.uris and b[0] in g.uris and a in g.nodes and b in g.nodes for a, b, _ in g.refs): break
+            elif ci == 1:
+                # fixed second case: a graph of objects only - no node has a DataType, ParentNodeId or MethodDeclarationId, so the node table lacks those columns
+                g = nsgen.gen_graph(random.Random(7), n_ns=1, n_nodes=0, hostile=False, with_values=False, dangling=False)
+                prev_ = (nsgen.UA, "i", "85")
+                for j in range(4):
+                    k_ = (g.uris[0], "i", str(100 + j)); g.nodes[k_] = dict(cls="UAObject", bname=(g.uris[0], "Obj%d" % j), display="Obj%d" % j, desc=None, attrs={}, value=None); g.order.append(k_)
+                    g.refs.append((prev_, k_, (nsgen.UA, "i", "35"))); prev_ = k_
+                ds = nsgen.serialise(g, random.Random(7), aliases=False)
             else:
                 g, ds = writeprops.make_graph(rng, True, hostile=rng.random() < 0.5, clash=rng.random() < 0.7)
             files = [(n, docs.render(d, rng)) for n, d, _ in ds]
@@ -178,6 +186,7 @@ def check(ctx):
             wuris = [u for u in G.namespaces[1:] if u in g.uris]
             if len(wuris) >= 2 and ci % 2 == 0:
                 opening = opening + [("write", u, True, None) for u in wuris] + ([("write", u, False, None) for u in reversed(wuris)] if ci % 4 == 0 else [])
+            if ci == 1: opening = [("lookup", "Obj1"), ("norm_nodes", None), ("norm_refs", None), ("lookup", "Obj2"), ("norm_nodes", g.uris[0]), ("write", g.uris[0], True, None)] + opening
             for step in range(n_ops + len(opening)):
                 st_before = rng.getstate()
                 if step < len(opening):
@@ -188,6 +197,8 @@ def check(ctx):
                             def f():
                                 s_ = io.StringIO(); GG.write_nodeset(s_, od[1], include_outgoing_instance_level_references=od[2], last_modified=writeprops.T0, publication_date=writeprops.T0, new_model_version=od[3]); return s_.getvalue()
                             return f
+                        if od[0] == "norm_nodes": return lambda: GG.get_normalized_nodes_df(od[1])
+                        if od[0] == "norm_refs": return lambda: GG.get_normalized_references_df(od[1])
                         return lambda: GG.nodeid_by_browsename(od[1])
                     desc, thunk = od, mk(G)
                 else: desc, thunk = operations(rng, G, g, list(hist))
